@@ -87,3 +87,26 @@ def purity (dims : List Nat) (ρ : Tensor R) : R :=
   sumGrid dims fun i => sumGrid dims fun j => ρ (i ++ j) * ρ (j ++ i)
 
 end PW.Spec
+
+namespace PW.Spec
+variable {R : Type} [Add R] [Mul R] [Zero R] [One R] [Conj R]
+
+/-- result of a request: either the new state or a rejection that leaves the state as it was -/
+inductive Outcome (R : Type) where
+  | ok (ρ : Tensor R)
+  | rejected (ρ : Tensor R)
+
+def Outcome.state {R : Type} : Outcome R → Tensor R
+  | .ok ρ => ρ
+  | .rejected ρ => ρ
+
+/-- an operation whose result is the zero operator (annihilating the vacuum) is rejected;
+`isZero` is the decision the caller supplies for `Tr (O ρ O†) = 0` -/
+def applyChecked (dims : List Nat) (T : List Nat) (O ρ : Tensor R) (isZero : Bool) : Outcome R :=
+  if isZero then .rejected ρ else .ok (applyOn dims T O ρ)
+
+/-- a shrink request for the subsystem at position `p` is honoured only if nothing is cut off -/
+def resizeChecked (lossless : Bool) (ρ ρ' : Tensor R) : Outcome R :=
+  if lossless then .ok ρ' else .rejected ρ
+
+end PW.Spec
